@@ -26,6 +26,7 @@ def mutants(ctx):
       Mutant("counter_nonatomic_dec", U, "    } else {\n        dep_cur_value = parsec_atomic_fetch_dec_int32( deps ) - 1;\n    }", "    } else {\n        dep_cur_value = *deps - 1; *deps = dep_cur_value;\n    }", queries=["counter_m0_t3"]),
       Mutant("mask_rmw_not_atomic", U, "dep_cur_value = parsec_atomic_fetch_or_int32( deps, dep_new_value ) | dep_new_value;", "dep_cur_value = *deps | dep_new_value; *deps = dep_cur_value;", queries=["mask_t3"]),
       Mutant("counter_memory_flow_counted", U, "if( PARSEC_LOCAL_DATA_TASK_CLASS_ID != dep->task_class_id )  /* if not a data we must wait for the flow activation */\n                    active++;", "active++;", queries=["counter_m1_t3"]),
+      Mutant("mask_first_match_lost", U, "                    if( PARSEC_LOCAL_DATA_TASK_CLASS_ID == dep->task_class_id ) {\n                        active = (1 << flow->flow_index);\n                    }\n                    break;", "                    if( PARSEC_LOCAL_DATA_TASK_CLASS_ID == dep->task_class_id ) {\n                        active = (1 << flow->flow_index);\n                        break;\n                    }", queries=["mask_t3"]),
       Mutant("mask_in_done_skipped", U, "dep_new_value |= parsec_check_IN_dependencies_with_mask(tp, task);", "dep_new_value |= 0;", queries=["mask_t3"]),
     ]
 CLAIMED = True
